@@ -829,6 +829,52 @@ func preferredSymbol(reader string) string {
 	return reader
 }
 
+// charMutatedRow: see genRow. Works for the fixed-width symbologies.
+func charMutatedRow(t *rapid.T, sym string) string {
+	w, tail := 0, 0
+	switch sym {
+	case "CODE39", "CODE39X":
+		w, tail = 13, 12
+	case "CODE93":
+		w, tail = 9, 10
+	case "CODE128":
+		w, tail = 11, 13
+	default:
+		return ""
+	}
+	rng := hx.NewRng(rapid.Uint64().Draw(t, "rowseed"))
+	bm := symbolMatrix(sym, rng)
+	if bm == nil || bm.GetHeight() == 0 {
+		return ""
+	}
+	var sb strings.Builder
+	for x := 0; x < bm.GetWidth(); x++ {
+		if bm.Get(x, 0) {
+			sb.WriteByte('1')
+		} else {
+			sb.WriteByte('0')
+		}
+	}
+	row := sb.String()
+	body := strings.Trim(row, "0")
+	if len(body) < w+tail || (len(body)-w-tail)%w != 0 {
+		return ""
+	}
+	var mids []string
+	for i := w; i < len(body)-tail; i += w {
+		mids = append(mids, body[i:i+w])
+	}
+	n := rapid.IntRange(0, len(mids)+2).Draw(t, "nchars")
+	if rapid.IntRange(0, 3).Draw(t, "fewchars") == 0 {
+		n = rapid.IntRange(0, 2).Draw(t, "nchars2")
+	}
+	out := strings.Repeat("0", 10) + body[:w]
+	for i := 0; i < n && len(mids) > 0; i++ {
+		out += mids[rapid.IntRange(0, len(mids)-1).Draw(t, "pick")]
+	}
+	return out + body[len(body)-tail:] + strings.Repeat("0", 10)
+}
+
 // QR stream grammar
 func genQRStream(t *rapid.T) []byte {
 	var bits []bool
@@ -899,7 +945,15 @@ func genRow(t *rapid.T, reader string) string {
 	if rapid.IntRange(0, 3).Draw(t, "shortrow") == 0 {
 		n = rapid.IntRange(1, 40).Draw(t, "rowlen2")
 	}
-	kind := rapid.IntRange(0, 4).Draw(t, "rowkind")
+	kind := rapid.IntRange(0, 5).Draw(t, "rowkind")
+	if kind == 5 {
+		// a valid symbol re-assembled from its own characters: start and stop kept, the characters
+		// between them dropped, repeated or reordered (down to none at all)
+		if s := charMutatedRow(t, preferredSymbol(reader)); s != "" {
+			return s
+		}
+		kind = 3
+	}
 	if kind >= 3 {
 		// a valid symbol row with run-length jitter
 		rng := hx.NewRng(rapid.Uint64().Draw(t, "rowseed"))
